@@ -284,6 +284,8 @@ func udpRequestReply(ctx context.Context, conn net.Conn, request []byte,
 		}
 
 		if t != tid {
+			// not a reply to our request
+			err = ErrParse
 			continue
 		}
 
